@@ -43,13 +43,25 @@ class Light(light.Light):
 class MultizoneLight(Light, i_controller.MultizoneLight):
     def __init__(self, impl, num_zones=None):
         super().__init__(impl)
-        self._num_zones = num_zones or len(self.get_zone_colors())
+        self._num_zones = num_zones or self._count_zones()
+
+    def _count_zones(self) -> int:
+        zone_colors = self.get_zone_colors()
+        if zone_colors is None:
+            raise i_controller.LightException(
+                'Unable to get zones from "{}"'.format(self.get_name()))
+        return len(zone_colors)
 
     def get_num_zones(self) -> int:
         return self._num_zones
 
     @tries(_MAX_TRIES, WorkflowException)
     def get_zone_colors(self, first_zone=None, last_zone=None):
+        if not hasattr(self._impl, 'get_color_zones'):
+            logging.error(
+                'No get_color_zones for light of type {}'.format(
+                    type(self._impl)))
+            return None
         if first_zone is not None:
             first_zone = param_16(first_zone)
         if last_zone is not None:
